@@ -667,6 +667,11 @@ impl ImageHandler for KittyImageHandler {
             ?img,
             "[KittyImageHandler.draw]"
         );
+        // An image without pixels can not be transmitted (the protocol rejects
+        // zero width/height), so there is nothing to place either.
+        if img.height() == 0 || img.width() == 0 {
+            return Ok(());
+        }
         let img_id = kitty_image_id(img);
 
         // q   - suppress response from the terminal 1 - OK only, 2 - All.
